@@ -265,6 +265,12 @@ static json rst_project(const Schedule& sched, std::size_t step) {
         for (const auto& c : w.getConnections())
             cs.push_back({c.getI(), c.getJ(), c.getK(), Connection::State2String(c.state()), g6(c.CF()), g6(c.Kh()), g6(c.rw()), c.complnum(), c.segment()});
         j["conns"] = cs;
+        {   // economic limits (WECON) - those the restart file has a slot for (the maximum gas-liquid ratio, the maximum
+            // temperature and the minimum reservoir rate have none and come back as "no limit": see DESIGN.md 12.6)
+            const auto& e = w.getEconLimits();
+            j["econ"] = {g6(e.minOilRate()), g6(e.minGasRate()), g6(e.maxWaterCut()), g6(e.maxGasOilRatio()), g6(e.maxWaterGasRatio()),
+                         int(e.workover()), e.endRun(), g6(e.maxSecondaryMaxWaterCut()), g6(e.minLiquidRate())};
+        }
         if (w.isMultiSegment()) {
             json ss = json::array();
             const auto& segs = w.getSegments();
